@@ -719,6 +719,8 @@ class Runner:
 
 def count_extras(ctx, r):
     """evidence: how often the less common call forms were exercised (program ops and what fired)"""
+    if r.prog.get("flavour") == "rational":
+        ctx.count("rational_clock_programs")
     for sc in r.prog["scripts"]:
         for op in sc["ops"]:
             if op[0] == "timeout" and len(op) > 2:
@@ -727,11 +729,15 @@ def count_extras(ctx, r):
                 ctx.count("succeed_with_equal_to_everything_value")
             elif op[0] == "interrupt" and len(op) > 2:
                 ctx.count("interrupt_ops_with_interrupt_object_as_cause")
+            elif op[0] == "succeed" and len(op) > 2 and op[2] == "listval":
+                ctx.count("succeed_with_mutable_list_value")
     for e in r.tape:
         if e[1] == "chain":
             ctx.count("chained_triggers_fired")
         elif e[1] == "interrupt" and e[2] == "cb":
             ctx.count("interrupts_issued_from_plain_callbacks")
+        elif e[1] == "ptrigger":
+            ctx.count("second_triggers_on_ended_processes")
 
 
 def first_diff(a, b):
